@@ -1558,6 +1558,16 @@ theorem lua_agrees_regenerated (name : Bytes) (args : List Bytes) (c : Cmd)
     parseCmd (name :: args) = .ok c ∧ (∃ r ∈ luaRows, r.name = kw name) ∧ (∃ r ∈ respRows, r.name = kw name) :=
   lua_agrees_src resp_rows_describe_model lua_rows_describe_model name args c sl hfl s hf hacc
 
+theorem regenerated_rows_definite : respRows.all SRow.definite = true := by decide +kernel
+
+/-- table-driven commands: `parseCmd` = the arity test of the regenerated row, then the body GENERATED from it -/
+theorem from_resp_dsl_is_generated (name : Bytes) (args : List Bytes) (s : Spec)
+    (hf : findEntry table (kw name) = some (.cmd s)) (hb : s.body.plainDsl = true) :
+    ∃ r ∈ respRows, r.name = kw name ∧ ∃ b, r.body? = some b ∧
+      parseCmd (name :: args) =
+        if r.arity.ok args.length then liftB (b.run args) else .error (.arity r.aerr) :=
+  resp_dsl_is_generated resp_rows_describe_model regenerated_rows_definite name args s hf hb
+
 /-- non-vacuity: the regenerated tables are not empty and know SET in all three grammars -/
 theorem regenerated_tables_nonempty :
     respRows.length = {n_resp} ∧ zcRows.length = {n_zc} ∧ luaRows.length = {n_lua} ∧
